@@ -95,7 +95,9 @@ def gen_history(r, maxops, thorough):
             c = r.choice(cs)
             push("W%d" % c); sim.cfds[c] = False; sim.hnd.append(sim.new_obj()); sim.nopen -= 1
         elif k < 0.20 and nb < 3:
-            push("B"); sim.bods.append({"fds": [], "slots": 0}); nb += 1
+            # half of the built bodies are big endian (MessageBuilder::with_byteorder): non-native on this host, so
+            # every stored index >= 1 and UNIX_FDS >= 1 differ between the two byte orders
+            push("Bb" if r.random() < 0.5 else "B"); sim.bods.append({"fds": [], "slots": 0}); nb += 1
         elif k < 0.44 and bs and (hs or cs):
             b = r.choice(bs)
             fail = r.random() < 0.25
@@ -171,7 +173,7 @@ def gen_history(r, maxops, thorough):
             sel = [r.choice(cs) for _ in range(n)]
             ni = r.choice([0, 1, 2, 3])
             idxs = [r.choice([0, 0, 1, 2, n, n + 1, 5, 4294967295]) if r.random() < 0.5 else r.randrange(0, max(1, n)) for _ in range(ni)]
-            push("I%s:%s" % (",".join(map(str, sel)) or "-", ",".join(map(str, idxs)) or "-"))
+            push("I%s:%s%s" % (",".join(map(str, sel)) or "-", ",".join(map(str, idxs)) or "-", ":b" if r.random() < 0.5 else ""))
             sim.wire.append({"n": n, "slots": ni})
             sim.nopen += n
         elif k < 0.74 and sim.wire:
@@ -237,7 +239,7 @@ def gen_history(r, maxops, thorough):
     if not cleanup and sim.live_c() and r.random() < 0.16:
         # last operation: a frame with descriptors that cannot be delivered, then the connection is dropped
         cs = sim.live_c()
-        push("Z%s:%s" % (r.choice("fp"), ",".join(str(r.choice(cs)) for _ in range(r.choice([0, 1, 1, 2, 3, 12]))) or "-"))
+        push("Z%s%s:%s" % (r.choice("fp"), r.choice(["", "b"]), ",".join(str(r.choice(cs)) for _ in range(r.choice([0, 1, 1, 2, 3, 12]))) or "-"))
     if cleanup:
         while sim.wire:
             sim.wire.pop(0)
@@ -686,10 +688,38 @@ class Runner:
                  "S": "send", "I": "inject", "V": "recv", "U": "unmarshal", "A": "parse", "G": "get_param", "M": "unmarshall_all", "Z": "undeliverable_frame_then_drop_conn", "C": "clone", "Y": "dup", "T": "take",
                  "X": "drop_handle"}
         maxfd = 0
+        big = {}                    # body number -> byte order (built bodies; a received body has its sender's)
+        inflight = []
         for op, s in zip(ops, impl["ops"]):
             res = s["res"]
             tag = res.split(":")[0]
             ctx.count("op:%s:%s" % (names.get(op[0], op[0]), tag))
+            if op[0] == "B" and tag == "b":
+                big[int(res[2:])] = op[1:].strip() == "b"
+                ctx.count("new_body_byteorder:%s" % ("big" if big[int(res[2:])] else "little"))
+            if op[0] == "S" and tag == "sent":
+                inflight.append(big.get(int(op[1:].split(":")[0]), False))
+            if op[0] == "I" and tag == "ok":
+                inflight.append(op.endswith(":b"))
+                ctx.count("crafted_frame_byteorder:%s" % ("big" if inflight[-1] else "little"))
+            if op[0] == "V" and inflight:
+                bo = inflight.pop(0)
+                if tag == "b":
+                    big[int(res[2:])] = bo
+                    nf = len(s["bods"][int(res[2:])]["fds"])
+                    ctx.count("recv_byteorder:%s:%s" % ("big" if bo else "little", "0" if nf == 0 else "1" if nf == 1 else "2+"))
+            if op[0] == "P" and tag == "pushed":
+                b, shape, items = op[1:].split(":")
+                if big.get(int(b)):
+                    hi = [int(x) for x in res.split(":")[1].split(",") if x != ""]
+                    its = [x.strip() for x in items.split(",") if x.strip() not in ("", "-")]
+                    for it, ix in zip(its, hi):
+                        if ix >= 1:
+                            ctx.count("big_endian_body_index_ge_1:%s" % ("asrawfd" if it[0] == "r" else "unixfd"))
+            if op[0] in "UAGM" and tag in ("h", "hs") and big.get(int(op[1:].split(":")[0])):
+                ctx.count("read_from_big_endian_body:%s" % names.get(op[0], op[0]))
+            if op[0] == "Z" and tag == "err":
+                ctx.count("undeliverable_frame_byteorder:%s" % ("big" if op[1:].split(":")[0].endswith("b") else "little"))
             if op[0] == "P" and tag in ("pushed", "err"):
                 b, shape, items = op[1:].split(":")
                 n = len([x for x in items.split(",") if x.strip() not in ("", "-")])
@@ -763,7 +793,7 @@ def coq_term(line):
         elif k == "S":
             out.append("Send %s%%nat" % a.split(":")[0])
         elif k == "I":
-            cs, ix = a.split(":")
+            cs, ix = a.split(":")[:2]
             out.append("Inject %s %s" % (lst(cs, lambda x: x.strip() + "%nat"), lst(ix, lambda x: x.strip())))
         elif k == "U":
             b, i = a.split(":")
@@ -895,12 +925,12 @@ def trace_summary_model(mod):
 def setup(ctx):
     ctx.rule = ("a case = one history: <= 25 generated operations (plus, in half of the cases, a tail that receives and drops everything) over "
                 "caller descriptors (fresh pipes / unlinked files), UnixFd variables, <= 3 built bodies plus received ones, one connection: "
-                "open, caller-close, UnixFd::new, push (single / tuple / Vec / HashMap / Vec of tuples / push_params / push_param2..5 / push_variant / Vec of variants / "
+                "open, caller-close, UnixFd::new, new body (half of them MessageBuilder::with_byteorder(BigEndian): stored indices, UNIX_FDS and header big endian on this little-endian host; the audit reads the indices back in the body's byte order with its own walker), push (single / tuple / Vec / HashMap / Vec of tuples / push_params / push_param2..5 / push_variant / Vec of variants / "
                 "with a 300 kB byte array / old Param API; elements UnixFd, &dyn AsRawFd, or one that fails, at any position; 25% of pushes "
                 "fail), reset, drop, send (library -> raw peer socket with write_once(Nonblock) + resume; of the sends that carry descriptors 35% with "
                 "the send buffer shrunk and a 40 kB header so that the first write ends inside the header, 15% sized so that it ends exactly at "
-                "the header/body boundary; the peer keeps every descriptor of every recvmsg), inject (raw peer crafts a message with chosen indices), receive "
-                "(raw peer -> library), read_unixfd with in-range / out-of-range indices, parse a stored slot (typed API incl. Variant::get), the dynamic Param API (parser().get_param() over leading params, MarshalledMessage::unmarshall_all; descriptors at top level and inside arrays / structs / dict entries / variants; the decoded handles and the message are later dropped in either order), in 8% of histories a last operation outside the model: a frame with descriptors that cannot be delivered (header field that does not decode = failure before the descriptors leave RecvConn.fds_in / non-zero padding = failure after) followed by dropping the connection, judged by the audit and the close log alone, clone, dup, take, drop; 7% of "
+                "the header/body boundary; the peer keeps every descriptor of every recvmsg), inject (raw peer crafts a message with chosen indices; half of the frames big endian), receive "
+                "(raw peer -> library), read_unixfd with in-range / out-of-range indices, parse a stored slot (typed API incl. Variant::get), the dynamic Param API (parser().get_param() over leading params, MarshalledMessage::unmarshall_all; descriptors at top level and inside arrays / structs / dict entries / variants; the decoded handles and the message are later dropped in either order), in 8% of histories a last operation outside the model: a frame with descriptors that cannot be delivered (header field that does not decode = failure before the descriptors leave RecvConn.fds_in / non-zero padding = failure after) (either byte order) followed by dropping the connection, judged by the audit and the close log alone, clone, dup, take, drop; 7% of "
                 "histories contain one push of 11..253 descriptors. After EVERY operation /proc/self/fd + fstat are compared with the model's "
                 "table up to renaming. distinct = distinct history text (after HashMap order feedback); non-trivial = at least one push succeeded")
     ctx.trusted = [
